@@ -196,7 +196,7 @@ fn set_acc(a: &mut Adsr, acc: u32) {
     a.phase_accumulator = PhaseAccumulator::verif_from_parts(fs, acc, acc, inc, false);
 }
 
-// @harness prop=C01,C17 tier=quick timeout=1200
+// @harness prop=C01 tier=quick timeout=1200
 // @about any Inv_adsr state: any of the 5 phases, any counter value (all 2^24), any f32 start/sustain/gate-off level in [0,1]: calc_value() (the value tick() stores) lies in [0,1]; attack: >= the level at which it started; decay: >= the sustain level; release: <= the level at which it started; sustain: exactly the sustain level; rest: exactly 0.0. No index/overflow panic
 #[kani::proof]
 fn c01_value_range_and_shape_bounds() {
@@ -366,7 +366,7 @@ fn c03_table_facts() {
     vcover!(i == 1022, "witness: last cell");
 }
 
-// @harness prop=C03,C02 tier=quick timeout=900
+// @harness prop=C03,C02,C01 tier=quick timeout=900
 // @about gate events arriving at any moment: any Inv_adsr state whose stored output is the current output (value == calc_value(), as after any tick), gate_on() / gate_off(): when the event is accepted the new segment's first output calc_value() equals the output before the event exactly (no click) and the counter restarts at 0; when it is ignored (gate_on in attack; gate_off in release / at rest) the envelope is bit-identical to before
 #[kani::proof]
 fn c03_gate_events_start_from_current_level() {
@@ -403,7 +403,7 @@ fn c03_gate_events_start_from_current_level() {
 // C02  tick: state machine and timing
 // =====================================================================
 
-// @harness prop=C02,C17,C01 tier=quick timeout=1500
+// @harness prop=C02,C01 tier=quick timeout=1500
 // @about one tick() from any Inv_adsr state, any sample rate in [100,192000] (symbolic f32), any stored times in [0.001,20] s and levels; inc := the increment the tick installed (read back from the counter): (1) no transition and counter advanced by exactly inc unless counter+inc >= 2^24; otherwise exactly attack->decay, decay->sustain, release->rest with the counter back at 0 and no pending flag; sustain and rest never move and leave the counter alone; (2) Inv_adsr is preserved, parameters and latched levels untouched, and the stored output is in [0,1]; no overflow / panic (Kani checks; float->int casts saturate). That inc is the right one for the time of the current phase is c02_tick_uses_time_of_current_phase and c02_increment_accuracy
 #[kani::proof]
 fn c02_tick_state_machine() {
